@@ -232,6 +232,26 @@ func solveObligation(j *oblResult, smtDir string, timeoutS int, all bool, seed i
 	}
 	extra := []Term{o.PC, Not(o.Goal)}
 	extra = append(extra, o.Extra...)
+	if !o.ExpectSat && o.na > 40 {
+		// first try with only the hypotheses connected to the goal (sound for `unsat`; anything else is
+		// inconclusive and the full query is run)
+		j.Fn.Script.pruneMu.Lock()
+		pq, kept := j.Fn.Script.PrunedQuery(o.nd, o.na, extra, nil)
+		j.Fn.Script.pruneMu.Unlock()
+		if kept < o.na*3/4 {
+			pt := timeoutS
+			if pt > 6 {
+				pt = 6
+			}
+			pr := Solve(smtDir, o.Name+".pruned", pq, pt, false, seed)
+			if pr.Status == "unsat" {
+				pr.Solver += " (pruned query)"
+				j.R = pr
+				j.Cls = "discharged"
+				return
+			}
+		}
+	}
 	q := j.Fn.Script.Query(o.nd, o.na, extra, get)
 	if o.ExpectSat && o.Kind == "cover" && timeoutS > 3 {
 		timeoutS = 3 // covers guard against vacuity; an undecided cover is simply not counted
